@@ -474,3 +474,28 @@ def p3(ctx):
     if n_sites < 8:
         raise AnalysisError("only %d file-system calls found in the web layer (confirmed: 15)" % n_sites)
     return obs
+
+
+@rule("C13", "P4", floor=2, kind="S",
+      desc="a store is opened at exactly the directory that was mapped from the request: no upward search for an "
+           "enclosing repository (Repo.discover) - a data directory inside some work tree would serve that tree")
+def p4(ctx):
+    obs = []
+    n = 0
+    for mname in ("xandikos.store.git", "xandikos.store.vdir", "xandikos.store", "xandikos.web"):
+        for fi in ctx.P.funcs_in_module(mname):
+            for c in walk_local(fi.node):
+                if not isinstance(c, ast.Call):
+                    continue
+                d = dotted(c.func) or ""
+                last = d.split(".")[-1]
+                if last in ("Repo", "init", "init_bare") and ("repo" in d.lower() or last == "Repo"):
+                    n += 1
+                    obs.append(ctx.ok(fi.qualname, "%s:%d" % (fi.module.rel, c.lineno), "repository opened by path: %s" % last, "`%s`" % src(c)[:60]))
+                if last in ("discover", "find_root", "controldir_from_path") or (last == "Repo" and any(k.arg == "search_parent_directories" for k in c.keywords)):
+                    obs.append(ctx.bad(fi.qualname, "%s:%d" % (fi.module.rel, c.lineno), "no upward repository search",
+                                       "`%s` searches the parent directories for a repository: a request path that names a plain directory below "
+                                       "the data root is served from whatever repository encloses the data root" % src(c)[:70]))
+    if n < 2:
+        raise AnalysisError("only %d repository open/init sites found" % n)
+    return obs
